@@ -119,12 +119,26 @@ func (v *Verifier) addOb(name, kind, clause string, st *State, goal *Term, cover
 		ob.NTriv++
 		return
 	}
+	if !cover && goal.Op == "and" && len(goal.Args) >= 8 {
+		// a long conjunction (an unrolled quantifier over a literal range): one case per conjunct
+		for _, a := range goal.Args {
+			v.addOb(name, kind, clause, st, a, false)
+		}
+		return
+	}
 	// skolemise universally quantified goals and instantiate the path's
 	// quantified facts at the skolem constants and at the indices read on the path
 	var sks []*Term
 	goal = skolemise(goal, &sks)
 	// implication introduction: the antecedent's conjuncts become hypotheses of this case, so that
 	// the quantified ones are instantiated like the path's own facts
+	origGoal := goal
+	if goal.Op == "not" && goal.Args[0].Op == "and" {
+		goal = Implies(goal.Args[0], TFalse)
+		if goal.Op != "=>" {
+			goal = mk("=>", SBool, origGoal.Args[0], TFalse)
+		}
+	}
 	if goal.Op == "=>" {
 		st = st.clone()
 		for goal.Op == "=>" {
@@ -163,6 +177,7 @@ func (v *Verifier) addOb(name, kind, clause string, st *State, goal *Term, cover
 				rec(a)
 			}
 		}
+		rec(origGoal)
 		rec(goal)
 	}
 	// ... and so are the function's own parameters (for quantifiers over their types)
